@@ -60,10 +60,26 @@ func (r *Reader) ReadEntry() (*Entry, error) {
 		// Process based on record type
 		switch record.recordType {
 		case RecordTypeFull:
+			// A complete record cannot sit inside a fragmented entry. The
+			// type byte is not covered by the checksum: if this one (or the
+			// one that opened the entry) is damaged, the payload is a piece
+			// of a larger entry and must not be parsed as an entry of its own
+			if len(r.fragments) > 0 {
+				r.fragments = r.fragments[:0]
+				return nil, fmt.Errorf("%w: full record inside a fragmented entry", ErrCorruptRecord)
+			}
+
 			// Single record, parse directly
 			return r.parseEntryData(record.data)
 
 		case RecordTypeFirst:
+			// Same for a new first fragment before the last one of the
+			// entry in progress
+			if len(r.fragments) > 0 {
+				r.fragments = r.fragments[:0]
+				return nil, fmt.Errorf("%w: first fragment inside a fragmented entry", ErrCorruptRecord)
+			}
+
 			// Start of a fragmented entry
 			r.fragments = append(r.fragments, record.data)
 			r.currType = record.data[0] // Save the operation type
